@@ -126,7 +126,8 @@ func (s *zzState) SetIPv6Autoconf(iface string, enable bool) error { s.autoconf 
 var _ system.State = (*zzState)(nil)
 
 func zzNewContext(r *zzRec, st system.State) *Context {
-	return &Context{ll: log.New(zzLogW{}, "", 0), mm: zzNewMetrics(r), state: st}
+	// the real constructor, so that state it sets up is there
+	return NewContext(log.New(zzLogW{}, "", 0), zzNewMetrics(r), st)
 }
 
 // ---- connection stub ----
